@@ -45,7 +45,8 @@ def explore_line_index(args):
             isb = True if pos == n else not W.branch(z3.And(z3.UGE(bs[pos], 0x80), z3.ULT(bs[pos], 0xC0)))
             if not isb: continue
             try:
-                lc = I.call("", "LineIndex::line_col", [Ptr(Cell(li)), text, pos])
+                f_lc = P.lookup("LineIndex::line_col")          # an internal function: follow its parameter list (with / without the text)
+                lc = I.call("", "LineIndex::line_col", [Ptr(Cell(li)), text, pos] if f_lc is None or len(f_lc.args) >= 3 else [Ptr(Cell(li)), pos])
                 p = I.call("", "Position::new", [text, pos])
                 plc = I.call("", "Position::line_col", [Ptr(Cell(p.f[0]))]) if p.idx == 1 else None
                 out.append((pos, tuple(lc.f), tuple(plc.f) if plc is not None else None, (line, col)))
